@@ -32,6 +32,12 @@ CHECKS = {
  'C10': dict(technique='symbolic execution of the HDF5File constructor and every append function from LLVM IR against a recorder model of the HDF5 C++ API (data-flow terms from symbolic sources to datasets/attributes), plus bounded path exploration of main()\'s loop for record bookkeeping',
              text='bounded symbolic verification (partial): every axis dataset, unit attribute and impedance dataset carries the term of the quantity the statement names for all values; each append extends exactly the expected datasets by one record at offset = record count with the named source array, bunch b in row b (1-3 bunches, first and second record); record/time-axis bookkeeping over all paths of <= K loop iterations of main',
              ref='4/C10'),
+ 'C12': dict(technique='symbolic execution with write logging of every observer call (PhaseSpace observers, updateCSR, HDF5File appends, applyTo, getPastModulation) from LLVM IR, plus under-constrained path exploration of main()\'s loop from its real IR with all cadences symbolic; z3 decides the schedule arithmetic',
+             text='bounded symbolic verification (first sentence of the statement): every observer call writes only observer state for all symbolic contents; integrate is idempotent; over all paths of <= 2 (3) loop iterations the state-changing events of an iteration are the canonical step with fixed receivers, renormalisation depends on the step number only, output on k % outstep; bit-identity of separate processes is not claimed',
+             ref='4/C12'),
+ 'C14': dict(technique='under-constrained symbolic execution of main()\'s loop and epilogue from its real LLVM IR (compiled -fno-inline) with every volatile read of the interrupt flag a fresh monotone boolean; event traces checked against the step grammar, z3 for path conditions',
+             text='bounded symbolic verification: the handler only sets the flag; on every path of <= 2 (3) iterations an interrupt seen at any loop test lets the step in progress finish, runs no further step, appends exactly one final record of type All labelled with the step reached, prints Aborted. and returns 0; any other place where main reads the flag is explored with the flag set and must lead to the same ending',
+             ref='4/C14'),
  'C15': dict(technique='symbolic execution of every applyTo (kick, drift, 4 Fokker-Planck tracking models) with symbolic position, displacement field and noise draw; z3 decides containment and particle==blob-centroid',
              text='bounded symbolic verification: for every real start position on the grid, every (unbounded) displacement field and noise draw the tracked coordinate stays in [0,n-1]^2; a particle on a grid point or half-way between rows moves exactly like the centroid of a unit blob transported by apply() (it>=2); the stochastic model damps towards the zero-energy bin with N(0,sqrt(2e1)/delta) noise',
              ref='4/C15'),
